@@ -93,6 +93,35 @@ def run_rules(prop, rules, ix, config):
     return ctx
 
 
+def run_selftest(prop):
+    """Thorough tier (ii): apply this property's seeded mutants (selftest/mutants.json) to scratch copies of the CURRENT tree and
+    require the expected rule to fire.  Results are recorded in the evidence; a miss is printed but is not a property violation."""
+    import subprocess
+    import tempfile
+    out = tempfile.NamedTemporaryFile(prefix="rce-selftest-", suffix=".json", delete=False)
+    out.close()
+    try:
+        r = subprocess.run([sys.executable, os.path.join(VERIF, "tools", "selftest.py"), "--prop", prop, "--jobs", "8", "--json", out.name],
+                           capture_output=True, text=True, cwd=VERIF)
+        try:
+            with open(out.name) as fh:
+                res = json.load(fh)
+        except (OSError, ValueError):
+            res = []
+    finally:
+        try:
+            os.remove(out.name)
+        except OSError:
+            pass
+    fired = [x for x in res if x["status"] == "FIRED"]
+    missed = [x for x in res if x["status"] in ("MISSED", "NOBUILD")]
+    skipped = [x for x in res if x["status"] == "SKIPPED"]
+    for x in missed:
+        print("SELFTEST-MISS property=%s mutant=%s expected a violation containing %r (status %s)" % (prop, x["id"], x.get("expect"), x["status"]))
+    return {"selftest": {"mutants": len(res), "fired": len(fired), "skipped_anchor_gone": len(skipped), "missed": len(missed),
+                         "detail": [{"mutant": x["id"], "status": x["status"], "violation": (x.get("hit") or [None])[0]} for x in res]}}
+
+
 def load_known():
     known, fixed = {}, []
     if os.path.exists(KNOWN):
@@ -133,11 +162,14 @@ def main(prop, title, rules, level, explanation, assumptions, trusted_base=None,
                 i.config = cfg
             all_insts.extend(ctx.insts)
         extra_cov = {}
-        if tier == "thorough" and thorough_hook is not None:
-            hook_insts, extra_cov = thorough_hook()
-            for i in hook_insts:
-                i.config = "selftest"
-            all_insts.extend(hook_insts)
+        if tier == "thorough":
+            extra_cov = run_selftest(prop)
+            if thorough_hook is not None:
+                hook_insts, more = thorough_hook()
+                extra_cov.update(more)
+                for i in hook_insts:
+                    i.config = "thorough"
+                all_insts.extend(hook_insts)
     except factsmod.BuildError as e:
         print("ERROR property=%s cannot analyse /repo: %s" % (prop, e))
         return 2
